@@ -73,7 +73,74 @@ def big_text(c):
         at = w + c['shift']       # shift -1: a two-character break straddles offset w
         if 0 <= at and at + len(br) + 1 < len(chars):
             chars[at:at + len(br)] = list(br)
+    head = c.get('head')
+    if head:
+        # a long beginning with \n as its only line break (or none at all): whatever an implementation concludes
+        # from a look at the start of the text must not be applied to the rest
+        repl = '\n' if c.get('head_breaks') == 'lf' else ' '
+        for i in range(min(head, len(chars))):
+            if chars[i] in '\r\x0b\x0c\x1c\x1d\x1e\x85\u2028\u2029' or (repl == ' ' and chars[i] == '\n'):
+                chars[i] = repl
     return ''.join(chars)
+
+
+def big_lines(c):
+    """Hundreds of kilobytes of lines (multi-byte characters, \\n and \\r\\n endings, blank lines) after a chosen
+    beginning."""
+    r = common.rng('C19-bigrev', c['seed'])
+    out = [c['lead']]
+    n = len(c['lead'].encode('utf-8'))
+    while n < c['size']:
+        ln = ' '.join(r.choice(['alpha', 'b', '\xe9t\xe9', '\u65e5\u672c', '12345', '', '\U0001f600']) for _ in range(r.randint(0, 12)))
+        ln += r.choice(['\n', '\n', '\r\n', '\n\n'])
+        out.append(ln)
+        n += len(ln.encode('utf-8'))
+    text = ''.join(out)
+    if c.get('tail') is not None:
+        text = text.rstrip('\r\n') + c['tail']
+    return text
+
+
+def check_rev_big(c, st):
+    ju = common.load('jsonutils')
+    content = big_lines(c)
+    data = content.encode('utf-8')
+    want_text = expected_reverse(data)
+    want_bytes = [x.encode('utf-8') for x in want_text]
+    path = os.path.join(tmpdir(), 'big%d' % os.getpid())
+    with open(path, 'wb') as f:
+        f.write(data)
+    for kind in c['kinds']:
+        for bs in c['blocksizes']:
+            st.monitor_evals += 1
+            bs = bs if bs > 0 else len(data) - bs
+            try:
+                if kind == 'bytesio':
+                    fo = io.BytesIO(data)
+                elif kind == 'binary-file':
+                    fo = open(path, 'rb')
+                else:
+                    fo = open(path, 'r', encoding='utf-8', newline='' if kind == 'text-file-raw-newlines' else None)
+                try:
+                    out = list(ju.reverse_iter_lines(fo, blocksize=bs) if bs != 4096 else ju.reverse_iter_lines(fo))
+                finally:
+                    try:
+                        fo.close()
+                    except Exception:
+                        pass
+            except Exception as e:
+                return ('reverse_iter_lines-raised:%s:big-file' % type(e).__name__,
+                        'reverse_iter_lines(<%d bytes beginning %r> as %s, blocksize=%d) raised %r' % (len(data), content[:6], kind, bs, e))
+            want = want_text if kind.startswith('text') else want_bytes
+            if out != want:
+                i = next((i for i, (a, b) in enumerate(zip(out, want)) if a != b), min(len(out), len(want)))
+                return ('reverse_iter_lines:wrong-lines:big-file%s' % (':first-line-empty' if data[:1] in (b'\n', b'\r') else ''),
+                        'reverse_iter_lines(<%d bytes beginning %r> as %s, blocksize=%d): %d lines, want %d; first difference at '
+                        'line %d from the end: %r vs %r' % (len(data), content[:6], kind, bs, len(out), len(want), i,
+                                                            out[i:i + 1], want[i:i + 1]))
+    st.count('reverse_big_files')
+    st.peak('max_reverse_file_bytes', len(data))
+    return None
 
 
 def check_split(c, st):
@@ -313,7 +380,7 @@ def check_jsonl(c, st):
 
 
 def check(c, st):
-    return {'split': check_split, 'rev': check_rev, 'jsonl': check_jsonl}[c['kind']](c, st)
+    return {'split': check_split, 'rev': check_rev, 'jsonl': check_jsonl, 'rev-big': check_rev_big}[c['kind']](c, st)
 
 
 def gen(r):
@@ -434,9 +501,23 @@ def run(ctx):
                      (70000, '\r', -1), (140000, '\u2028', -1), (66000, '\r\n', -2), (140000, '\x85', 0), (270000, '\r\n', 0),
                      (70000, '\x0b', -1), (1100000, '\r\n', -1), (210000, '\r\r\n', -1), (210000, '\r\r\n', -2),
                      (120000, '\n\r\n', -1), (330000, '\r\n\r\n', -2), (210000, '\r\n\r', -2), (520000, '\r\r\n', -1)])]
+        bigs += [{'kind': 'split', 'big': True, 'seed': 100 + i, 'size': size, 'break': br, 'shift': -1, 'head': head,
+                  'head_breaks': hb}
+                 for i, (size, br, head, hb) in enumerate(
+                     [(140000, '\r\n', 70000, 'lf'), (200000, '\r', 131073, 'lf'), (100000, '\u2028', 65537, 'none'),
+                      (300000, '\x85', 262145, 'lf'), (90000, '\x0b', 65536, 'lf'), (1200000, '\r\n', 1048577, 'lf'),
+                      (70000, '\r\n', 65535, 'none'), (150000, '\x0c', 100000, 'lf')])]
         mine = [b for i, b in enumerate(bigs) if i % ctx.nshards == ctx.shard]
-        for b in (mine if ctx.thorough else mine[:5]):
+        for b in (mine if ctx.thorough else mine[:7]):
             run_case(ctx, b, check, 'split-big', None, {})
+        revs = [{'kind': 'rev-big', 'seed': i, 'size': size, 'lead': lead, 'tail': tail,
+                 'kinds': ['binary-file', 'text-file', 'bytesio', 'text-file-raw-newlines'], 'blocksizes': [4096, 65536, -10, 100003]}
+                for i, (size, lead, tail) in enumerate(
+                    [(300000, '\n', None), (262144, '\n', ''), (600000, '\r\n', None), (262150, '', None), (1200000, '\n\n', '\n'),
+                     (262100, '\nfirst', None), (2100000, '\n', None), (400000, 'x', '')])]
+        mine = [b for i, b in enumerate(revs) if i % ctx.nshards == ctx.shard]
+        for b in (mine if ctx.thorough else mine[:1]):
+            run_case(ctx, b, check, 'rev-big', None, {})
         explore_cases(ctx, gen, check, {'quick': 2000, 'thorough': 60000}[ctx.tier], 'lines', shrink)
     finally:
         cleanup()
